@@ -638,7 +638,7 @@ func runC06(e *Env) error {
 		c06Writers(e, pool, work)
 		if e.Atlas != "" {
 			c06CLI(e, work)
-			c06Consumers(e, work)
+			c06Consumers(e, work, pool)
 			c06Import(e, work)
 			c06EnvFormat(e, work)
 		}
